@@ -707,6 +707,51 @@ def run_r9(ctx, rule):
             rule.bad("%s/no-cold-call" % name, "%s does not reach give_up_at_cold" % name, fn.loc(), kind="anchor-missing")
 
 
+# ---- R10 ------------------------------------------------------------------------------------------
+def run_r10(ctx, rule):
+    """A dispatcher tries alternatives: `if token_a(input).matches()? { .. } else if token_b(input).matches()? { .. } else
+    { return Err(unexpected(input, "a, b or c")) }`.  A token that matched has consumed itself; the error of the last arm
+    says what was expected *where the alternatives were tried* and is raised at the cursor.  So an error site must not
+    be reachable both from the edge on which a consuming token matched and from the edge on which it did not (without
+    going through that token's test again): for one of the two the cursor stands in the wrong place.  (`a(input)
+    .matches()? && flag` instead of `flag && a(input).matches()?` consumes the marker and then refuses the branch.)"""
+    facts = ctx.facts
+    n = 0
+    for fid, fn in sorted(facts.fns.items()):
+        if fn.crate not in FORMAT_CRATES:
+            continue
+        sy = sym(fn)
+        c = cfg(fn)
+        errs = [bb for bb, t in fn.calls() if norm(util.cname(t)).rsplit("::", 1)[-1] in ("unexpected", "give_up", "give_up_at") and ("::token::" in norm(util.cname(t)) or norm(util.cname(t)).startswith(LR))]
+        if not errs:
+            continue
+        for bi, b in enumerate(fn.blocks):
+            t = b["term"]
+            if b["cleanup"] or t["k"] != "switch" or bi not in c.reach:
+                continue
+            d = sy.operand(t["discr"])
+            tok = []
+            mentions(d, lambda x: x[0] == "call" and norm(x[2]).endswith("Parsed::matches") and x[3] and x[3][0][0] == "call" and "::token::" in norm(x[3][0][2]) and not tok.append(x[3][0]) and False)
+            if not tok:
+                continue
+            tname = norm(tok[0][2])
+            if tname.rsplit("::", 1)[-1] in ("eof",):
+                continue  # matches without consuming
+            arms = dict((v, tg) for v, tg in t["arms"])
+            if 0 not in arms:
+                continue
+            f_edge, t_edge = arms[0], t["otherwise"]
+            n += 1
+            # within the same round of the enclosing loops: the next statement starts at the loop header again
+            heads = [h for h, body in c.loops().items() if bi in body]
+            rt = c.reachable_from(t_edge, avoid=[bi] + heads)
+            rf = c.reachable_from(f_edge, avoid=[bi] + heads)
+            shared = [e for e in errs if e in rt and e in rf]
+            rule.check(not shared, "%s/matched-alternative-committed/%s@%d" % (norm(fid), short(tname), len([1 for b2 in range(bi) if fn.blocks[b2]["term"]["k"] == "switch"])), "%s: once %s matched (and consumed itself) no error site is reached that is also reached when it did not match%s" % (short(norm(fid)), short(tname), "" if not shared else " - the error at %s is raised at the cursor for both" % fn.loc(shared[0])), fn.loc(bi))
+    if n < 6:
+        rule.bad("alternatives/sites", "only %d tests of consuming alternatives found (6 expected)" % n, kind="anchor-missing")
+
+
 def run(ctx):
     r1 = ctx.rule("C08-R1", "mark() is read only after set_mark() for the current token on every path from every API root", floor=8)
     run_r1(ctx, r1)
@@ -722,6 +767,8 @@ def run(ctx):
     run_r7(ctx, r7)
     r6 = ctx.rule("C08-R6", "a token that leaves locating its error to the caller commits the error with the cursor still on the token", floor=3)
     run_r6(ctx, r6)
+    r10 = ctx.rule("C08-R10", "a matched alternative is committed: no error site is reachable both from the edge on which a consuming token matched and from the edge on which it fell through", floor=6)
+    run_r10(ctx, r10)
     r9 = ctx.rule("C08-R9", "the line state itself: new starts at line 1 at the reader's position, line_at_offset(k) adds one line starting at position + k, give_up_at passes its position on, nothing else writes line / line_start", floor=9)
     run_r9(ctx, r9)
     from .c02 import run_r2 as c02_r2
